@@ -19,7 +19,7 @@ def run(tier):
         dict(row='addq_rr', contract='for dest, src in all 16 GPRs: bytes decode to exactly one instruction ADD r/m64 with the requested operands'),
     ]
     not_decided = ['the Dora-side assembler', 'label distances beyond the bound']
-    return prop_asm.run(PROP, 'x64', tier, assumptions, samples, not_decided, slow_rows=SLOW_ROWS)
+    return prop_asm.run(PROP, 'x64', tier, assumptions, samples, not_decided, slow=SLOW_ROWS)
 
 
 def replay(rp):
